@@ -665,6 +665,43 @@ def drive_c20(tier, seed, cfg):
             sigs.add(common.dumps(("C20", "signal", signame, rc, bool(left_t), round(delay, 1))))
             if left_t:
                 add("interrupt-leaves-files-in-tmpdir", dict(signal=signame, delay=delay, rc=rc, left=left_t[:5]), dict(signal=signame, delay=delay))
+    # --output FILE: a run that fails creates nothing in the working directory, a run that succeeds exactly FILE
+    # (seeded change C20-e claimed the name before scheduling and never gave it back)
+    def run_outfile(k):
+        d = tempfile.mkdtemp(prefix="of-", dir=fd)
+        t2, c2 = os.path.join(d, "tmp"), os.path.join(d, "cwd")
+        os.makedirs(t2)
+        os.makedirs(c2)
+        name = sorted(inputs)[k % len(inputs)]
+        data = inputs[name]
+        open(os.path.join(c2, "in.tjp"), "wb").write(data)
+        use_stdin = bool((k // len(inputs)) % 2)
+        outname = ["out.json", "sub.csv", "report.out"][k % 3]
+        args = [PLAN, "--quiet", "report"] + (["--csv"] if outname.endswith(".csv") else []) + ["-o", outname] + ([] if use_stdin else ["in.tjp"])
+        try:
+            p = subprocess.run(args, cwd=c2, env=cli_env(t2), input=(data if use_stdin else None), stdin=(None if use_stdin else subprocess.DEVNULL),
+                               capture_output=True, timeout=180)
+            rc = p.returncode
+        except subprocess.TimeoutExpired:
+            rc = "timeout"
+        left_t = snapshot(t2)
+        left_c = [x for x in snapshot(c2) if x != "in.tjp"]
+        shutil.rmtree(d, ignore_errors=True)
+        return k, name, use_stdin, outname, rc, left_t, left_c
+    with cf.ThreadPoolExecutor(max_workers=8) as ex:
+        for k, name, use_stdin, outname, rc, left_t, left_c in ex.map(run_outfile, range(tc.get("outfiles", 2 * len(inputs)))):
+            C["output-file-runs"] += 1
+            sigs.add(common.dumps(("C20", "outfile", name in failing, use_stdin, rc if isinstance(rc, str) else (0 if rc == 0 else "fail"), bool(left_c))))
+            rp = dict(args="-o " + outname, input=name, stdin=use_stdin, rc=rc)
+            if rc == "timeout":
+                notes.append("--output run timed out (inconclusive): %s" % rp)
+                continue
+            if left_t:
+                add("output-file-run-leaves-files-in-tmpdir", dict(rc=rc, left=left_t[:5]), rp)
+            if rc == 0 and left_c != [outname]:
+                add("successful-output-file-run-creates-other-files", dict(rc=rc, cwd=left_c[:5], want=[outname]), rp)
+            if rc != 0 and left_c:
+                add("failed-output-file-run-leaves-files-in-cwd", dict(rc=rc, left=left_c[:5]), rp)
     # the consumer of the report is gone or cannot take it: stdout is a pipe whose read end is closed / a full device
     # (seeded change C20-c restored the default SIGPIPE disposition: the process died with every artefact in place)
     def run_badout(k):
@@ -708,7 +745,7 @@ def drive_c20(tier, seed, cfg):
             if left_c:
                 add("unwritable-stdout-leaves-files-in-cwd", dict(kind=kind, rc=rc, left=left_c[:5]), rp)
     shutil.rmtree(root, ignore_errors=True)
-    C["cases"] = C["concurrent-processes"] + C["failpoint-runs"] + C["sigint-runs"] + C["solitary-runs"] + C["unwritable-stdout-runs"]
+    C["cases"] = C["concurrent-processes"] + C["failpoint-runs"] + C["sigint-runs"] + C["solitary-runs"] + C["unwritable-stdout-runs"] + C["output-file-runs"]
     C["nontrivial"] = len(sigs)
     C["distinct-interleavings"] = sum(1 for s in sigs if s.startswith("interleaving:"))
     return dict(C=C, sigs=sigs, viols=viols, vc=vc, samples=samples, notes=notes, status=status, nworkers=common.NCPU)
